@@ -59,6 +59,7 @@ partial def loop (h : IO.FS.Stream) (out : IO.FS.Stream) : IO Unit := do
   if line.isEmpty then return ()
   let line := (line.dropEndWhile (fun c => c == '\n' || c == '\r')).toString
   out.putStrLn (handle line)
+  out.flush
   loop h out
 
 def main : IO Unit := do
